@@ -212,6 +212,23 @@ impl RespOut {
     }
 }
 
+/// the status code on the scripted wire, if its first line has one
+fn wire_status(segs: &[Seg]) -> Option<u16> {
+    let mut w: Vec<u8> = vec![];
+    for s in segs {
+        if let Seg::Data(d) = s {
+            w.extend_from_slice(&d[..d.len().min(64)]);
+            if w.len() >= 64 {
+                break;
+            }
+        }
+    }
+    let line = w.split(|&b| b == b'\n').next()?;
+    let mut parts = line.split(|&b| b == b' ').filter(|p| !p.is_empty());
+    parts.next()?;
+    std::str::from_utf8(parts.next()?).ok()?.trim().parse().ok()
+}
+
 fn inv_kind(k: &attohttpc::InvalidResponseKind) -> &'static str {
     use attohttpc::InvalidResponseKind::*;
     match k {
@@ -333,19 +350,23 @@ pub fn run_resp(case: &RespCase) -> RespOut {
         // a request that carries content (one POST / PUT case in two): how the response is read does not depend on
         // what the request was (seeds C04-seed9, C05-seed9)
         let rb = attohttpc::RequestBuilder::new(method_of(&case.method), "http://verif.test/x");
+        // following redirects is on (the default) unless the scripted response is one of the five statuses that
+        // are followed: every other response — the other 3xx included — is handed to the caller either way, and
+        // how it is read does not depend on the setting (seed C01-seed11)
+        let follow = !wire_status(&case.segs).map_or(true, |st| [301, 302, 303, 307, 308].contains(&st));
         let with_body = (case.method == "POST" || case.method == "PUT") && case.segs.len() % 2 == 1;
         if with_body {
             return rb
                 .text("request-content")
                 .max_headers(case.max_headers)
                 .allow_compression(case.segs.len() % 2 == 0)
-                .follow_redirects(false)
+                .follow_redirects(follow)
                 .send();
         }
         rb.max_headers(case.max_headers)
             // only announces Accept-Encoding; the response side must not depend on it
             .allow_compression(case.segs.len() % 2 == 0)
-            .follow_redirects(false)
+            .follow_redirects(follow)
             .send()
     }));
     out.pulled_at_head = log.lock().unwrap().pulled;
